@@ -11,7 +11,8 @@ Fns == {"f1", "f2", "f3", "f4"}
 Kinds == {"openapi31", "openapi30", "openrpc"}
 Extractors(k) == IF k = "openrpc" THEN {"pyd", "doc"} ELSE {"base", "pyd", "doc+pyd"}
 MethodAlpha0 == {M(f, e, er, t, c) : f \in Fns, e \in {"root", "api"}, er \in {"unset", "own", "shared"}, t \in {"none", "t1"}, c \in {"none", "P_"}}
-MethodAlpha == MethodAlpha0 \cup {F(m) : m \in MethodAlpha0} \cup {X(m) : m \in MethodAlpha0}
+MethodAlphaPlain == {m \in MethodAlpha0 : m.tags = "none" /\ m.cpref = "none"}
+MethodAlpha == MethodAlpha0 \cup {F(m) : m \in MethodAlphaPlain} \cup {X(m) : m \in MethodAlphaPlain}
 MethodSmall == {M("f1", "root", "shared", "t1", "P_"), M("f2", "root", "shared", "none", "none"), M("f3", "root", "own", "t1", "none"),
                 M("f4", "root", "unset", "none", "none"), M("f1", "api", "own", "none", "none"), M("f2", "api", "unset", "t1", "P_"),
                 M("f3", "api", "shared", "none", "P_"), M("f1", "root", "unset", "none", "none"),
@@ -22,16 +23,19 @@ MethodSmall == {M("f1", "root", "shared", "t1", "P_"), M("f2", "root", "shared",
                 F(N(M("f1", "api", "unset", "none", "none"), "dup")), X(M("f4", "root", "unset", "none", "none")), X(M("f1", "root", "own", "t1", "P_"))}
 Exposed(m) == IF m.name = "own" THEN m.fn ELSE m.name
 DistinctNames(s) == \A i, j \in DOMAIN s : i # j => ~(Exposed(s[i]) = Exposed(s[j]) /\ s[i].ep = s[j].ep)
-S(k, x, p, ms) == [kind |-> k, extractor |-> x, prefix |-> p, statusmap |-> "none", methods |-> ms]
+S(k, x, p, ms) == [kind |-> k, extractor |-> x, prefix |-> p, statusmap |-> "none", plan |-> "same", methods |-> ms]
+SH(s) == [s EXCEPT !.plan = "shrink"]
 SM(s) == [s EXCEPT !.statusmap = "map"]
 InitN(A, n) == \E k \in Kinds : \E x \in Extractors(k), p \in {"none", "rpc"} :
                  \/ \E m1 \in MethodAlpha : InitWith(S(k, x, p, <<m1>>))
-                 \/ \E m1 \in A, m2 \in A : DistinctNames(<<m1, m2>>) /\ InitWith(S(k, x, p, <<m1, m2>>))
-                 \/ n >= 3 /\ \E m1 \in A, m2 \in A, m3 \in A : DistinctNames(<<m1, m2, m3>>) /\ InitWith(S(k, x, p, <<m1, m2, m3>>))
-\* errors mapped to an HTTP status of their own (OpenAPI only)
+                 \/ \E m1 \in A, m2 \in A : DistinctNames(<<m1, m2>>) /\ (InitWith(S(k, x, p, <<m1, m2>>)) \/ InitWith(SH(S(k, x, p, <<m1, m2>>))))
+                 \/ n >= 3 /\ \E m1 \in A, m2 \in A, m3 \in A : DistinctNames(<<m1, m2, m3>>)
+                       /\ (InitWith(S(k, x, p, <<m1, m2, m3>>)) \/ InitWith(SH(S(k, x, p, <<m1, m2, m3>>))))
+\* errors mapped to an HTTP status of their own (OpenAPI only); methods whose error sets for that status differ
+MapExtra == {M("f4", "root", "own2", "none", "none"), M("f2", "root", "own2", "none", "P_"), M("f1", "api", "own2", "t1", "none")}
 InitMap == \E k \in {"openapi31"}, x \in {"pyd"}, p \in {"none", "rpc"} :
               \/ \E m1 \in MethodSmall : InitWith(SM(S(k, x, p, <<m1>>)))
-              \/ \E m1 \in MethodSmall, m2 \in {M("f3", "root", "own", "t1", "none"), M("f2", "api", "shared", "none", "P_")} :
+              \/ \E m1 \in MethodSmall \cup MapExtra, m2 \in {M("f3", "root", "own", "t1", "none"), M("f2", "api", "shared", "none", "P_")} \cup MapExtra :
                     DistinctNames(<<m1, m2>>) /\ InitWith(SM(S(k, x, p, <<m1, m2>>)))
 InitQuick == InitN(MethodSmall, 2) \/ InitMap
 InitThorough == InitN(MethodSmall, 3) \/ InitMap
